@@ -11,6 +11,9 @@
 (*   Committed  NodeDatabase.Commit(root) returned nil                     *)
 (*   Reopen     what the real code answered when every state root so far   *)
 (*              was opened from a store holding exactly the writes so far  *)
+(*   Aborted    the real code failed to build / commit the next block on   *)
+(*              its own committed state (conformance: the writes made so   *)
+(*              far carry the verdict)                                     *)
 (* The specification's children / disk / durable are bound to the          *)
 (* observation and the property is evaluated after EVERY write, i.e. for   *)
 (* every prefix of the write sequence (a crash leaves exactly a prefix).   *)
@@ -81,6 +84,7 @@ TraceNext ==
                   [] e.event = "Committed" -> JudgeCommitted(e)
                   [] e.event = "Reopen" -> JudgeReopen(e)
                   [] e.event = "Reset" -> <<>>
+                  [] e.event = "Aborted" -> <<"Run.realCodeCouldNotContinue">>
                   [] OTHER -> <<"unknown-event">>
      IN  /\ children' = ch2
          /\ disk' = d2
